@@ -617,6 +617,65 @@ func builtinModels() map[string]modelFn {
 	m["container/list.New"] = func(ex *Exec, st *State, args []T, c *ssa.CallCommon) []T {
 		return []T{ex.freshRef(st, "list")}
 	}
+	m["(reflect.Value).Len"] = func(ex *Exec, st *State, args []T, c *ssa.CallCommon) []T {
+		rs := ex.pureCall(st, "(reflect.Value).Len", c.StaticCallee().Signature, args)
+		ex.vc.assume(st.guard, Ge(rs[0], IntLit(0)))
+		return rs
+	}
+	m["(reflect.Value).Index"] = func(ex *Exec, st *State, args []T, c *ssa.CallCommon) []T {
+		// panics unless 0 <= i < v.Len() (slice, array or string value)
+		callee := c.StaticCallee()
+		if named, ok := callee.Signature.Recv().Type().(*types.Named); ok {
+			for i := 0; i < named.NumMethods(); i++ {
+				if m := named.Method(i); m.Name() == "Len" {
+					ln := ex.pureCall(st, "(reflect.Value).Len", m.Type().(*types.Signature), args[:1])[0]
+					ex.vc.assume(st.guard, Ge(ln, IntLit(0)))
+					ex.safeOblige(st, "reflect-index", And(Ge(args[1], IntLit(0)), Lt(args[1], ln)))
+				}
+			}
+		}
+		return ex.pureCall(st, "(reflect.Value).Index", callee.Signature, args)
+	}
+	// strings.Index / LastIndex: -1 or a position where the needle occurs (the needle fits, and the bytes there are the needle's)
+	strIndex := func(name string) modelFn {
+		return func(ex *Exec, st *State, args []T, c *ssa.CallCommon) []T {
+			ex.vc.needStrings()
+			rs := ex.pureCall(st, name, c.StaticCallee().Signature, args)
+			ln := func(x T) T { return mk(SInt, "gs.len", x) }
+			r := rs[0]
+			ex.vc.assume(st.guard, Ge(r, IntLit(-1)))
+			ex.vc.assume(st.guard, Imp(Ge(r, IntLit(0)), And(Le(Add(r, ln(args[1])), ln(args[0])), Eq(ex.strSub(args[0], r, Add(r, ln(args[1]))), args[1]))))
+			ex.vc.assumed["strings.Index/LastIndex: -1 or an in-range occurrence of the needle"] = true
+			return rs
+		}
+	}
+	m["strings.Index"] = strIndex("strings.Index")
+	m["strings.LastIndex"] = strIndex("strings.LastIndex")
+	strIndexByte := func(name string) modelFn {
+		return func(ex *Exec, st *State, args []T, c *ssa.CallCommon) []T {
+			ex.vc.needStrings()
+			rs := ex.pureCall(st, name, c.StaticCallee().Signature, args)
+			r := rs[0]
+			ex.vc.assume(st.guard, And(Ge(r, IntLit(-1)), Lt(r, Ite(Ge(mk(SInt, "gs.len", args[0]), IntLit(1)), mk(SInt, "gs.len", args[0]), IntLit(0)))))
+			ex.vc.assume(st.guard, Imp(Ge(r, IntLit(0)), Eq(mk(SInt, "gs.at", args[0], r), args[1])))
+			ex.vc.assumed["strings.IndexByte/LastIndexByte: -1 or an in-range position holding the byte"] = true
+			return rs
+		}
+	}
+	m["strings.IndexByte"] = strIndexByte("strings.IndexByte")
+	m["strings.LastIndexByte"] = strIndexByte("strings.LastIndexByte")
+	strShrink := func(name string) modelFn {
+		return func(ex *Exec, st *State, args []T, c *ssa.CallCommon) []T {
+			ex.vc.needStrings()
+			rs := ex.pureCall(st, name, c.StaticCallee().Signature, args)
+			ex.vc.assume(st.guard, Le(mk(SInt, "gs.len", rs[0]), mk(SInt, "gs.len", args[0])))
+			ex.vc.assumed["strings.Trim*: the result is no longer than the argument"] = true
+			return rs
+		}
+	}
+	for _, n := range []string{"strings.TrimSpace", "strings.Trim", "strings.TrimLeft", "strings.TrimRight", "strings.TrimPrefix", "strings.TrimSuffix"} {
+		m[n] = strShrink(n)
+	}
 	m["strings.Repeat"] = func(ex *Exec, st *State, args []T, c *ssa.CallCommon) []T {
 		// panics on a negative count; the result has count*len(s) bytes
 		ex.safeOblige(st, "repeat-count", Ge(args[1], IntLit(0)))
